@@ -47,6 +47,10 @@ function templates() {
   out.push(['nested|item.w', '<block wx:for="{{outer}}" wx:for-item="it" wx:for-index="oi"><v wx:for="{{it.inner}}" model:val="{{ item.w }}"/></block>'])
   out.push(['nested-keyed|item.w', '<block wx:for="{{outer}}" wx:key="k" wx:for-item="it" wx:for-index="oi"><v wx:for="{{it.inner}}" model:val="{{ item.w }}"/></block>'])
   out.push(['nested-rows|item', '<block wx:for="{{rows}}" wx:for-item="row"><v wx:for="{{row}}" model:val="{{ item }}"/></block>'])
+  // a model: binding inside a template definition: its path is relative to the data handed to the template
+  out.push(['template-body|shorthand', '<template name="t"><v model:val="{{ sel }}"/></template><template is="t" data="{{ sel }}"/>'])
+  out.push(['template-body|renamed', '<template name="t"><v model:val="{{ w }}"/></template><template is="t" data="{{ w: a.b }}"/>'])
+  out.push(['template-body|member', '<template name="t"><v model:val="{{ o.b }}"/></template><template is="t" data="{{ o: a }}"/>'])
   // several bindings in one template (a binding-map update of one field must not disturb the others)
   out.push(['several', '<v model:val="{{ a.b }}"/><v model:val="{{ c ? a.x : b.y }}"/><block wx:for="{{list}}" wx:key="k"><v model:val="{{ item.v }}"/></block>'])
   return out
@@ -157,7 +161,9 @@ function explore(cs, bundle, rep, thorough) {
         if (r.wrote) rep.nontrivial += 1
         rep.outcome([name.split('|')[0], mode || 'default', h.length, !!r.listener, !!r.wrote, !!r.problem])
         if (r.problem) {
-          rep.violation(`C11|real-runtime|${name}|${mode || 'default'}`, `template ${JSON.stringify(src)} (${name}, update mode ${mode || 'default'}): after ${JSON.stringify(h.map((t) => t.label))} ${r.problem}`,
+          // the recorded finding: inside a template definition the path names a field of the template's data and is written to the host data
+          const fp = name.startsWith('template-body|') && name !== 'template-body|shorthand' ? 'C11|model-path-inside-template-definition-is-relative-to-the-template-data' : `C11|real-runtime|${name}|${mode || 'default'}`
+          rep.violation(fp, `template ${JSON.stringify(src)} (${name}, update mode ${mode || 'default'}): after ${JSON.stringify(h.map((t) => t.label))} ${r.problem}`,
             { engine: 'c11rt', template: name, mode: mode || null, history: h, element: j })
           return
         }
